@@ -1,5 +1,6 @@
 import Dcg.Proofs.Modules
 import Dcg.Proofs.ModulesNorm
+import Dcg.Props.C02
 /-
 C12 — in multi-module output every cross-module reference resolves inside the package.
 Only property theorems live here; helper lemmas are in Dcg/Proofs/Modules.lean.
@@ -452,5 +453,61 @@ theorem merged_loops_take_local_class_name :
        (n "#/definitions/jobs.Status", n "Status", []),
        (n "#/definitions/jobs.Step", n "Step", [])] = some [n "Status"] ∧
     n "Status" ∈ [n "Job", n "Status", n "Step"] := by decide
+
+section CollapseLedger
+open Dcg.Model.Types Dcg.Model.Imports Dcg.Proofs.Imports Dcg.Proofs.ImportLedger
+
+/-! ### the import line of a foreign module under `--collapse-root-models` (C02's ledger model, read-only) -/
+
+/-- The import block of ONE module (the `Imports` object `__change_from_import` fills and
+`__collapse_root_models` takes from), for EVERY history of `append` / `remove` /
+`remove_referenced_imports` of any length that is disciplined (`ledgerRun`: every batch taken back was
+filed; `okRun`: no removal before its append — the harness records the real history of every module of the
+family "one foreign root model used k times" and checks both, plus the per-use discipline of
+`remove_referenced_imports`): the line `from . import types` (key `k`) is in the block at the end IF AND ONLY IF
+the uses filed and not taken back as a batch outnumber the single removals — one `append` per use, one
+`remove_referenced_imports` per collapsed use: the line survives exactly as long as a use remains. A
+generator that files the import once per CLASS and takes it back once per USE runs out of credit while
+an ordinary use of the same module is still written (`line_lost_when_filed_once_per_class`). -/
+theorem import_line_survives_iff_use_remains (os : List LOp) (s : State) (L : Ledger)
+    (hl : ledgerRun {} {} os = some L) (ok : okRun {} (os.map LOp.op) = true)
+    (h : run {} (os.map LOp.op) = some s) (k : Key) :
+    present s k = true ↔ (L.debits.count k : Int) < (credit L.filed k : Int) := by
+  have hc := Dcg.Props.C02.ledger_counts os s L hl h k
+  have hi := (Dcg.Props.C02.counter_invariant (os.map LOp.op) s ok h k).1
+  rw [hi, hc]
+  omega
+
+namespace CollapseWitness
+def sTypes : Str := ['t', 'y', 'p', 'e', 's']
+def pMoney : Str := ['#', 'M']
+def pAddr : Str := ['#', 'A']
+/-- `from . import types`, filed for a use of `types.Money` / of `types.Address` -/
+def forMoney : Imp := { from_ := some ['.'], name := sTypes, refPath := some pMoney }
+def forAddr : Imp := { from_ := some ['.'], name := sTypes, refPath := some pAddr }
+def kTypes : Key := (some ['.'], sTypes)
+/-- two uses of the root model and one of the ordinary model, filed per use; both root-model uses collapsed -/
+def perUse : List LOp := [.app [forMoney], .app [forMoney], .app [forAddr], .rr pMoney, .rr pMoney]
+/-- the same module when the import is filed once per class -/
+def perClass : List LOp := [.app [forMoney], .app [forAddr], .rr pMoney, .rr pMoney]
+end CollapseWitness
+
+open CollapseWitness in
+/-- non-vacuity of `import_line_survives_iff_use_remains`: the hypotheses hold of the per-use history, and the
+line is there (credit 3, two collapsed uses) -/
+example : (ledgerRun {} {} perUse).isSome = true ∧ okRun {} (perUse.map LOp.op) = true ∧
+    ((run {} (perUse.map LOp.op)).map (fun s => present s kTypes)) = some true := by
+  decide
+
+open CollapseWitness in
+/-- Filed once per class, taken back once per use: the counter of `from . import types` reaches zero and the
+line is dropped although the use of `types.Address` is still written — why the per-use discipline of the
+recorded histories is checked (a history like this one is reported as a broken correspondence and starts the
+failing-input search). -/
+theorem line_lost_when_filed_once_per_class :
+    ((run {} (perClass.map LOp.op)).map (fun s => present s kTypes)) = some false := by
+  decide
+
+end CollapseLedger
 
 end Dcg.Props.C12
